@@ -478,8 +478,11 @@ def run_real(case, workdir):
             parts.append('marked=' + lst(marked))
             parts.append('results=' + (lst(sorted(t.k for t in inner.results_map)) if inner is not None else ''))
             parts.append('pending=' + (lst(t.k for t in getattr(st, 'pending_tasks', [])) if st is not None else ''))
-            parts.append('active=' + (lst(sorted(t.k for ts in getattr(st, 'type_to_active_tasks', {}).values() for t in ts))
-                                      if st is not None else ''))
+            try:
+                active = lst(sorted(t.k for ts in getattr(st, 'type_to_active_tasks', {}).values() for t in ts))
+            except Exception:   # the bookkeeping no longer holds task objects: observable as a difference, not a crash
+                active = 'unreadable:' + lst(sorted(len(ts) for ts in getattr(st, 'type_to_active_tasks', {}).values()))
+            parts.append('active=' + (active if st is not None else ''))
             recs.append(dict(events=events, status=status, returned=returned, execs=execs, store=store, marked=marked,
                              plan=plan, objs=objs, inflight=inflight, phase=pi, store_before=store_before,
                              marked_before=marked_before, store_errors=store_errors, lab_error_cause=lab_error_cause,
